@@ -438,6 +438,93 @@ pub struct Half {
     pub violations: Vec<(Cell, u64, String, String)>,
 }
 
+/// The command-line entry point (`ipputil`, blocking client, native-tls): the same accept/reject rule must hold
+/// when the caller is the CLI — `-i` is the explicit opt-out, `-c` supplies roots — whatever the user's home directory
+/// contains. Black-box: the real binary as a child process against the in-process TLS printer.
+fn cli_matrix(seed: u64) -> Vec<(u64, CellResult)> {
+    let exe = crate::props::c18::ipputil_path();
+    if !exe.exists() {
+        println!("C12: note: ipputil binary not built; the command-line cells are skipped");
+        return Vec::new();
+    }
+    let work = verif_root().join("work").join(format!("c12-cli-{}", std::process::id()));
+    let home_clean = work.join("home-clean");
+    let home_cups = work.join("home-cups");
+    let _ = std::fs::create_dir_all(&home_clean);
+    let _ = std::fs::create_dir_all(home_cups.join(".cups"));
+    let _ = std::fs::write(home_cups.join(".cups/client.conf"), "ServerName print.example.org\n");
+    let _ = std::fs::write(home_cups.join(".cups/lpoptions"), "Default office\n");
+    let fx = verif_root().join("fixtures/tls");
+    let minted = JUST_EXPIRED.get().map(|c| c.is_some()).unwrap_or(false);
+    let mut out = Vec::new();
+    let mut n = 0u64;
+    for identity in [Identity::JustExpired, Identity::Valid, Identity::WrongHost, Identity::Expired, Identity::SelfSigned, Identity::UnknownCa] {
+        if identity == Identity::JustExpired && !minted {
+            continue;
+        }
+        for flag in [false, true] {
+            for roots in ["none", "pem", "der"] {
+                for home in ["clean", "cupsconf"] {
+                    n += 1;
+                    let cell_seed = mix(seed, 0xc11 + n);
+                    let mut rng = Rng::new(cell_seed);
+                    let ipp = ipp_response(&mut rng, 0, 1, "cli", vec![]);
+                    let script = Script { status: 200, framing: Framing::ContentLength, ipp, trailing: vec![], segments: vec![], fault: None, reset_request_after: None, drip_ms: 0 };
+                    let t0 = Instant::now();
+                    let Ok(printer) = TlsPrinter::start(identity, script) else { continue };
+                    let mut cmd = std::process::Command::new(&exe);
+                    if flag {
+                        cmd.arg("-i");
+                    }
+                    match roots {
+                        "pem" => {
+                            cmd.arg("-c").arg(fx.join("testca.cert.pem"));
+                        }
+                        "der" => {
+                            cmd.arg("-c").arg(fx.join("testca.cert.der"));
+                        }
+                        _ => {}
+                    }
+                    cmd.arg("-t").arg("20").arg("status").arg(format!("ipps://127.0.0.1:{}/printers/tls", printer.port));
+                    cmd.env("HOME", if home == "clean" { &home_clean } else { &home_cups });
+                    cmd.env_remove("LD_PRELOAD").env_remove("CUPS_SERVER").env_remove("CUPS_ENCRYPTION");
+                    cmd.stdin(std::process::Stdio::null()).stdout(std::process::Stdio::null()).stderr(std::process::Stdio::piped());
+                    let output = cmd.output();
+                    let seen = printer.stop();
+                    let accepted = output.as_ref().map(|o| o.status.success()).unwrap_or(false);
+                    let must_accept = flag || (identity == Identity::Valid && roots != "none");
+                    let app_bytes: usize = seen.iter().map(|c| c.app_bytes).sum();
+                    let cleartext = seen.iter().filter(|c| c.handshake_error.as_deref().map(|e| e.starts_with("cleartext")).unwrap_or(false)).count();
+                    let cell = format!(
+                        "backend={} store={} client=ipputil flag={} roots={} identity={} host=ip home={}",
+                        BACKEND,
+                        store_label(),
+                        if flag { "true" } else { "unset" },
+                        roots,
+                        match identity { Identity::Valid => "valid", Identity::WrongHost => "wronghost", Identity::Expired => "expired", Identity::SelfSigned => "selfsigned", Identity::UnknownCa => "unknownca", Identity::JustExpired => "justexpired" },
+                        home
+                    );
+                    let stderr = output.as_ref().map(|o| String::from_utf8_lossy(&o.stderr).chars().take(160).collect::<String>()).unwrap_or_default();
+                    let violation = if cleartext > 0 {
+                        Some((format!("request-sent-in-cleartext {cell}"), format!("ipputil opened {cleartext} connection(s) without TLS to an ipps target")))
+                    } else if accepted && !must_accept {
+                        Some((format!("invalid-server-accepted {cell}"), format!("ipputil exited 0 although the server certificate must be rejected; the server application received {app_bytes} bytes")))
+                    } else if !accepted && must_accept {
+                        Some((format!("valid-server-rejected {cell}"), format!("ipputil failed ({stderr}) although the certificate chains to the root given with -c and matches the host (or -i was given)")))
+                    } else if !accepted && app_bytes > 0 {
+                        Some((format!("request-leaked-before-rejection {cell}"), format!("ipputil failed but the server application had already received {app_bytes} bytes")))
+                    } else {
+                        None
+                    };
+                    out.push((cell_seed, CellResult { cell, must_accept, accepted, error: if accepted { None } else { Some(stderr) }, server_app_bytes: app_bytes, server_connections: seen.len(), cleartext_connections: cleartext, response_equal: None, violation, ms: t0.elapsed().as_millis() as u64 }));
+                }
+            }
+        }
+    }
+    let _ = std::fs::remove_dir_all(&work);
+    out
+}
+
 pub fn run_matrix(seed: u64, tier: Tier) -> Half {
     let t0 = Instant::now();
     let reps = if tier == Tier::Thorough { 3 } else { 1 };
@@ -474,13 +561,20 @@ pub fn run_matrix(seed: u64, tier: Tier) -> Half {
     });
     let mut v = out.into_inner().unwrap();
     v.sort_by_key(|x| x.0);
+    let cli: Vec<(u64, CellResult)> = if cfg!(feature = "tlsnative") { cli_matrix(seed) } else { Vec::new() };
     let mut violations = Vec::new();
+    for (sd, r) in &cli {
+        if let Some((class, detail)) = &r.violation {
+            // a CLI cell is replayed by re-running the CLI matrix; the Cell value carried here is only a placeholder
+            violations.push((Cell { client: Client::Blocking, flag: Flag::Unset, roots: Roots::None, identity: Identity::Valid, host: Host::Ip }, *sd, format!("{class} [cli]"), detail.clone()));
+        }
+    }
     for (_, c, sd, r) in &v {
         if let Some((class, detail)) = &r.violation {
             violations.push((*c, *sd, class.clone(), detail.clone()));
         }
     }
-    Half { results: v.into_iter().map(|x| x.3).collect(), wall_s: t0.elapsed().as_secs_f64(), violations }
+    Half { results: v.into_iter().map(|x| x.3).chain(cli.into_iter().map(|x| x.1)).collect(), wall_s: t0.elapsed().as_secs_f64(), violations }
 }
 
 /// `ippsim c12 <tier> --part <file>`  : run this backend's half, write it to <file>
@@ -592,7 +686,7 @@ fn write_evidence(tier: Tier, seed: u64, results: &[Value], wall: f64, violation
             "evaluations": results.len(),
             "distinct_nontrivial": distinct_reject.len(),
             "distinct_cells": distinct.len(),
-            "rule": "Complete enumeration of the matrix client {blocking, async} x ignore flag {unset, false, true} x extra roots {none, correct PEM, correct DER, unrelated PEM, unrelated then correct PEM, correct DER then unrelated} x server identity {valid, wrong host (SAN printer.invalid), expired (2020-01..2020-02), self-signed leaf, signed by an unknown CA, expired 20 seconds ago (minted at the start of each pass with the openssl CLI; skipped if that is unavailable)} x URI host {localhost, 127.0.0.1} = 432 cells per TLS backend, for both backends (native-tls and rustls; one harness build each), each once with the machine's trust store and once with an EMPTY system trust store (SSL_CERT_FILE / SSL_CERT_DIR pointed at empty fixtures; a separate process because the stores are cached per process) = 1728 real handshakes per repetition (quick: 1 repetition, thorough: 3 with different seeds) against an in-process server on loopback that speaks TLS (rustls) and, like cupsd, also plain HTTP on the same port (a client that falls back to cleartext is seen delivering its request); the seed permutes the order and draws the request/response. Oracle: accept iff flag == true or (identity == valid and the correct root is among those supplied through the builder); accept => Ok and response equal to the scripted one; reject => Err and the server application received 0 bytes after the handshake. distinct_nontrivial = distinct must-reject cells executed (the fault cells); distinct_cells = all distinct cells.",
+            "rule": "Complete enumeration of the matrix client {blocking, async} x ignore flag {unset, false, true} x extra roots {none, correct PEM, correct DER, unrelated PEM, unrelated then correct PEM, correct DER then unrelated} x server identity {valid, wrong host (SAN printer.invalid), expired (2020-01..2020-02), self-signed leaf, signed by an unknown CA, expired 20 seconds ago (minted at the start of each pass with the openssl CLI; skipped if that is unavailable)} x URI host {localhost, 127.0.0.1} = 432 cells per TLS backend, for both backends (native-tls and rustls; one harness build each) — plus, in the native-tls passes, 72 cells through the command-line entry point (the real ipputil binary: -i absent/present x -c none/PEM/DER x the six identities x a clean home directory / one with ~/.cups/client.conf) —, each once with the machine's trust store and once with an EMPTY system trust store (SSL_CERT_FILE / SSL_CERT_DIR pointed at empty fixtures; a separate process because the stores are cached per process) = 1728 real handshakes per repetition (quick: 1 repetition, thorough: 3 with different seeds) against an in-process server on loopback that speaks TLS (rustls) and, like cupsd, also plain HTTP on the same port (a client that falls back to cleartext is seen delivering its request); the seed permutes the order and draws the request/response. Oracle: accept iff flag == true or (identity == valid and the correct root is among those supplied through the builder); accept => Ok and response equal to the scripted one; reject => Err and the server application received 0 bytes after the handshake. distinct_nontrivial = distinct must-reject cells executed (the fault cells); distinct_cells = all distinct cells.",
             "exhaustive": true,
             "samples": samples,
             "fired": fired,
